@@ -15,36 +15,12 @@
 // obs file:   "C11O" then per record its fields  u8 status, u32 len, bytes[len]
 //             (DECENUM records: per enumerated string  u8 status [, u8 len, bytes] when status==0)
 // status: 0 returned, 1 threw std::invalid_argument, 2 threw another std::exception (bytes = type: what), 3 threw something else
-#include <atomic>
-#include <stdexcept>
-#include <string>
-#include <thread>
-#include <typeinfo>
-#include <vector>
+#include <map>
 
-#include "Encoding.hh"
-#include "Network.hh"
-#include "Strings.hh"
-#include "common.hh"
+#include "c11_exec.hh"
 
-using namespace std;
-using vf::fmt;
-
-static vf::Ctx* C;
 static FILE* OBS;
 static string obuf;
-
-enum Op { ENC = 1, DEC = 2, ROT = 3, URL = 4, CTRL = 5, QUOTES = 6, DECENUM = 7, NETLOC = 8, SWEEP = 9 };
-
-struct Field {
-  uint8_t status;
-  string bytes;
-  bool operator==(const Field& o) const { return status == o.status && bytes == o.bytes; }
-};
-
-struct Viol {
-  string key, what, kase;
-};
 
 static void flush_obs(bool force) {
   if (obuf.size() > (1 << 20) || force) {
@@ -61,121 +37,6 @@ static void put_field(const Field& f) {
   uint32_t n = (uint32_t)f.bytes.size();
   obuf.append((const char*)&n, 4);
   obuf += f.bytes;
-}
-
-// Runs fn (a single call into phosg) and returns what happened.  No shared state: usable from any thread.
-// P = poison errno first (always, except inside the static-initializer probe, which must not touch vf::)
-template <bool P = true, typename F>
-static Field observe(F fn) {
-  Field f{0, string()};
-  try {
-    if (P) vf::poison_errno();
-    f.bytes = fn();
-  } catch (const std::invalid_argument& e) {
-    f.status = 1;
-    f.bytes = e.what();
-  } catch (const std::exception& e) {
-    f.status = 2;
-    f.bytes = string(typeid(e).name()) + ": " + e.what();
-  } catch (...) {
-    f.status = 3;
-  }
-  return f;
-}
-
-// exact-size heap copy: the end of the data is the end of the allocation
-struct Exact {
-  uint8_t* p;
-  size_t n;
-  Exact(const void* d, size_t n_) : n(n_) {
-    void* v = nullptr;  // 16-byte aligned start, exact size: this is the "aligned" reference placement
-    if (posix_memalign(&v, 16, n ? n : 1) != 0) {
-      fprintf(stderr, "[harness-error] posix_memalign\n");
-      exit(3);
-    }
-    p = (uint8_t*)v;
-    if (n) memcpy(p, d, n);
-  }
-  ~Exact() { free(p); }
-  const void* ptr() const { return p; }
-};
-
-static const char* alphabet_for(uint8_t flag) {
-  return flag == 1 ? phosg::URLSAFE_ALPHABET : flag == 2 ? phosg::DEFAULT_ALPHABET : nullptr;
-}
-static const char* alpha_name(uint8_t flag) { return flag == 1 ? "urlsafe" : flag == 2 ? "std-explicit" : "std"; }
-
-static const char* lenbucket(size_t n) {
-  return n == 0 ? "len0" : n <= 3 ? "len1-3" : n <= 8 ? "len4-8" : n <= 64 ? "len9-64" : "len65+";
-}
-
-static const char* op_name(uint8_t op) {
-  switch (op) {
-    case ENC: return "base64_encode";
-    case DEC: return "base64_decode";
-    case ROT: return "rot13";
-    case URL: return "escape_url";
-    case CTRL: return "escape_controls";
-    case QUOTES: return "escape_quotes";
-    case NETLOC: return "netloc";
-    default: return "?";
-  }
-}
-
-// One record (ENC/DEC/ROT/URL/CTRL/QUOTES) -> the fields that go into the observation log.  Thread-safe.
-template <bool P = true>
-static vector<Field> exec_record(uint8_t op, uint8_t flag, const uint8_t* pay, uint32_t len) {
-  vector<Field> out;
-  string in((const char*)pay, len);
-  switch (op) {
-    case ENC: {
-      const char* alpha = alphabet_for(flag);
-      Exact e(pay, len);
-      out.push_back(observe<P>([&] { return phosg::base64_encode(e.ptr(), e.n, alpha); }));
-      out.push_back(observe<P>([&] { return phosg::base64_encode(in, alpha); }));
-      if (out[0].status == 0) {
-        const string enc = out[0].bytes;  // copy: out grows below
-        Exact ee(enc.data(), enc.size());
-        out.push_back(observe<P>([&] { return phosg::base64_decode(ee.ptr(), ee.n, alpha); }));
-        out.push_back(observe<P>([&] { return phosg::base64_decode(enc, alpha); }));
-      } else {
-        out.push_back({4, ""});
-        out.push_back({4, ""});
-      }
-      break;
-    }
-    case DEC: {
-      const char* alpha = alphabet_for(flag);
-      Exact e(pay, len);
-      out.push_back(observe<P>([&] { return phosg::base64_decode(e.ptr(), e.n, alpha); }));
-      out.push_back(observe<P>([&] { return phosg::base64_decode(in, alpha); }));
-      break;
-    }
-    case ROT: {
-      Exact e(pay, len);
-      out.push_back(observe<P>([&] { return phosg::rot13(e.ptr(), e.n); }));
-      if (out[0].status == 0) {
-        const string y = out[0].bytes;  // copy: out grows below
-        Exact e2(y.data(), y.size());
-        out.push_back(observe<P>([&] { return phosg::rot13(e2.ptr(), e2.n); }));
-      } else
-        out.push_back({4, ""});
-      break;
-    }
-    case URL:
-      out.push_back(observe<P>([&] { return phosg::escape_url(in, flag != 0); }));
-      break;
-    case CTRL:
-      out.push_back(observe<P>([&] { return phosg::escape_controls(in, flag != 0); }));
-      break;
-    case QUOTES:
-      out.push_back(observe<P>([&] { return phosg::escape_quotes(in); }));
-      break;
-    default:
-      fprintf(stderr, "[harness-error] exec_record: op %u\n", op);
-      exit(3);
-  }
-  return out;
 }
 
 
@@ -325,50 +186,6 @@ static string exec_class(uint8_t op, uint8_t flag, uint32_t len, const vector<Fi
   }
 }
 
-struct NetlocRec {
-  uint32_t lo, hi;
-  string host;
-};
-static NetlocRec parse_netloc_record(const uint8_t* pay, uint32_t len) {
-  if (len < 8) {
-    fprintf(stderr, "[harness-error] short NETLOC record\n");
-    exit(3);
-  }
-  NetlocRec r;
-  memcpy(&r.lo, pay, 4);
-  memcpy(&r.hi, pay + 4, 4);
-  r.host.assign((const char*)pay + 8, len - 8);
-  return r;
-}
-
-// render -> parse round trip for every port in [lo, hi); violations go to `sink` (thread-local in mt mode).
-// crumbs only when called from the main thread.
-static uint64_t netloc_roundtrips(const NetlocRec& r, vector<Viol>& sink, bool crumbs, const char* keyprefix) {
-  const string& host = r.host;
-  string hd = host.size() <= 40 ? vf::hex(host) : vf::hex(host.substr(0, 16)) + fmt("...(%zu bytes)", host.size());
-  uint64_t n = 0;
-  for (uint32_t port = r.lo; port < r.hi; port++) {
-    if (crumbs) C->crumb_n("netloc", port, host.size());
-    n++;
-    try {
-      vf::poison_errno();
-      string nl = phosg::render_netloc(host, (int)port);
-      vf::poison_errno();
-      auto back = phosg::parse_netloc(nl, 0);
-      if (back.first != host && sink.size() < 50)
-        sink.push_back({string(keyprefix) + "netloc:roundtrip:host", "parse_netloc(render_netloc(h,p),0).first != h",
-            fmt("host(hex)=%s port=%u rendered(hex)=%s parsed-host(hex)=%s", hd.c_str(), port, vf::hex(nl.substr(0, 80)).c_str(), vf::hex(back.first.substr(0, 80)).c_str())});
-      if (back.second != port && sink.size() < 50)
-        sink.push_back({string(keyprefix) + (port == 0 ? "netloc:roundtrip:port0" : "netloc:roundtrip:port"), "parse_netloc(render_netloc(h,p),0).second != p",
-            fmt("host(hex)=%s port=%u parsed-port=%u", hd.c_str(), port, (unsigned)back.second)});
-    } catch (const std::exception& e) {
-      if (sink.size() < 50)
-        sink.push_back({string(keyprefix) + "netloc:throws", string("render/parse_netloc threw ") + typeid(e).name() + ": " + e.what(), fmt("host(hex)=%s port=%u", hd.c_str(), port)});
-    }
-  }
-  return n;
-}
-
 static void netloc_case(const uint8_t* pay, uint32_t len, bool classes) {
   NetlocRec r = parse_netloc_record(pay, len);
   vector<Viol> sink;
@@ -382,6 +199,124 @@ static void netloc_case(const uint8_t* pay, uint32_t len, bool classes) {
   }
   C->cls(fmt("netloc:host-%s%s%s:ports-%s", r.host.size() == 1 ? "1char" : r.host.size() >= 255 ? "255+" : "mid", high ? "-highbytes" : "", dots ? "-dots" : "",
       r.lo == 0 ? "from0" : r.hi == 65536 ? "to65535" : "mid"));
+}
+
+// ---- netloc host families x port ladder ------------------------------------------------------------------
+// NETHOSTS payload: u8 famlen, family, u8 nports, u32 ports[nports], then hosts (u16 len, bytes) to the end of the record.
+// NETENUM  payload: u8 famlen, family, u8 nports, u32 ports[nports], u8 nsym, syms, u8 L, u8 plen, prefix:
+//          every host  prefix + syms^(L - plen).
+// Every (host, port) pair: parse_netloc(render_netloc(host, port), 0) == (host, port).  Hosts are non-empty and colon-free
+// (checked here: anything else in a case file is a harness error, the statement does not cover it).
+static const char* host_content_class(const string& h) {
+  bool br = false, syn = false, high = false, digits = true;
+  for (unsigned char ch : h) {
+    br |= ch == '[' || ch == ']';
+    syn |= ch < 0x20 || ch == 0x7F || strchr("@/?#%+ \"'\\<>&=;,|~^`{}()*!$", ch) != nullptr;
+    high |= ch >= 0x80;
+    digits &= ch >= '0' && ch <= '9';
+  }
+  return br ? "brackets" : digits ? "all-digits" : syn ? "syntax-chars" : high ? "high-bytes" : "plain";
+}
+
+struct LadderHead {
+  string family;
+  vector<uint32_t> ports;
+  size_t pos;
+};
+static LadderHead ladder_head(const uint8_t* pay, uint32_t len) {
+  auto bad = [&]() {
+    fprintf(stderr, "[harness-error] malformed NETHOSTS/NETENUM record\n");
+    exit(3);
+  };
+  LadderHead h;
+  size_t pos = 0;
+  if (len < 2) bad();
+  uint8_t fl = pay[pos++];
+  if (pos + fl + 1 > len) bad();
+  h.family.assign((const char*)pay + pos, fl);
+  pos += fl;
+  uint8_t np = pay[pos++];
+  if (np == 0 || pos + 4 * (size_t)np > len) bad();
+  for (unsigned i = 0; i < np; i++) {
+    uint32_t p;
+    memcpy(&p, pay + pos, 4);
+    pos += 4;
+    if (p > 65535) bad();
+    h.ports.push_back(p);
+  }
+  h.pos = pos;
+  return h;
+}
+
+static void ladder_host(const LadderHead& h, const string& host, vector<Viol>& sink, map<string, uint64_t>& classes) {
+  if (host.empty() || host.find(':') != string::npos) {
+    fprintf(stderr, "[harness-error] NETHOSTS/NETENUM host is empty or contains a colon\n");
+    exit(3);
+  }
+  string hd = host_display(host);
+  for (uint32_t port : h.ports) {
+    C->crumb_n("netloc-ladder(port, host length, first 8 host bytes little-endian)", port, host.size(), [&] {
+      uint64_t v = 0;
+      memcpy(&v, host.data(), host.size() < 8 ? host.size() : 8);
+      return v;
+    }());
+    C->evaluations++;
+    netloc_one(host, hd, port, sink, "", h.family);
+  }
+  classes[fmt("netloc-ladder:%s:%s", h.family.c_str(), host_content_class(host))]++;
+}
+
+static void nethosts_case(const uint8_t* pay, uint32_t len, bool enumerated) {
+  LadderHead h = ladder_head(pay, len);
+  vector<Viol> sink;
+  map<string, uint64_t> classes;
+  uint64_t nhosts = 0;
+  size_t pos = h.pos;
+  auto bad = [&]() {
+    fprintf(stderr, "[harness-error] malformed NETHOSTS/NETENUM record body\n");
+    exit(3);
+  };
+  if (!enumerated) {
+    while (pos < len) {
+      if (pos + 2 > len) bad();
+      uint16_t hl;
+      memcpy(&hl, pay + pos, 2);
+      pos += 2;
+      if (pos + hl > len) bad();
+      ladder_host(h, string((const char*)pay + pos, hl), sink, classes);
+      pos += hl;
+      nhosts++;
+    }
+  } else {
+    if (pos + 1 > len) bad();
+    uint8_t nsym = pay[pos++];
+    if (nsym == 0 || pos + nsym + 2 > len) bad();
+    const uint8_t* syms = pay + pos;
+    pos += nsym;
+    uint8_t L = pay[pos++], plen = pay[pos++];
+    if (pos + plen != len || plen > L || L == 0) bad();
+    string host(L, '\0');
+    for (size_t i = 0; i < plen; i++) host[i] = (char)pay[pos + i];
+    size_t free_pos = L - plen;
+    vector<uint8_t> idx(free_pos, 0);
+    for (;;) {
+      for (size_t i = 0; i < free_pos; i++) host[plen + i] = (char)syms[idx[i]];
+      ladder_host(h, host, sink, classes);
+      nhosts++;
+      size_t k = free_pos;
+      while (k > 0) {
+        if (++idx[k - 1] < nsym) break;
+        idx[k - 1] = 0;
+        k--;
+      }
+      if (k == 0) break;
+    }
+    C->cls(fmt("netloc-ladder:%s:enumerated:L%u:%usyms", h.family.c_str(), L, nsym));
+  }
+  for (auto& v : sink) C->violation(v.key, v.what, v.kase);
+  for (auto& kv : classes) C->cls(kv.first, kv.second);
+  C->count("netloc_ladder_hosts:" + h.family, nhosts);
+  C->count("netloc_ladder_pairs", nhosts * h.ports.size());
 }
 
 // All strings  prefix + (symbols)^(L - plen)  in itertools.product order (last position varies fastest).
@@ -618,6 +553,14 @@ int main(int argc, char** argv) {
       case NETLOC:
         netloc_case(pay, len, !mt);
         if (mt) recs.push_back({op, flag, pay, len, {}});
+        break;
+      case NETHOSTS:
+      case NETENUM:
+        if (mt) {
+          fprintf(stderr, "[harness-error] NETHOSTS/NETENUM record in an mt case file\n");
+          return 3;
+        }
+        nethosts_case(pay, len, op == NETENUM);
         break;
       default:
         fprintf(stderr, "[harness-error] unknown op %u\n", op);
